@@ -3,6 +3,7 @@ import DaskModel.Lemmas.Truthful
 import DaskModel.Lemmas.RepartDivs
 import DaskModel.Lemmas.RepartSize
 import DaskModel.Lemmas.RepartWalk
+import DaskModel.Lemmas.RepartFloat
 import DaskModel.Props.C45
 /-! # C44 — repartitioning preserves rows, order and requested layout (theorems) -/
 namespace Dask.C44
@@ -92,7 +93,7 @@ theorem splitPositions_shape {len k : Nat} {pos : List Nat} (h : splitPositions 
     cases h
     refine ⟨by simp, ?_, by simp⟩
     obtain ⟨k', rfl⟩ : ∃ k', k = k' + 1 := ⟨k - 1, by omega⟩
-    simp [List.range_succ_eq_map, F64.mulNat, F64.roundRat, F64.trunc]
+    simp [List.range_succ_eq_map, mulNat_zero, F64.trunc]
 
 /-- **repartition(npartitions = n) with n ≥ old yields exactly n partitions** through ToMore -/
 theorem tomore_npartitions {α : Type} (parts : List (List α)) (new : Nat) (out : List (List α))
@@ -102,6 +103,92 @@ theorem tomore_npartitions {α : Type} (parts : List (List α)) (new : Nat) (out
   simp only [Option.bind_eq_some_iff] at h
   obtain ⟨ks, hks, hout⟩ := h
   obtain ⟨h1, h2⟩ := tomore_rows splitPositions hmono parts ks out hout
+  exact ⟨by rw [h1, (nsplits_sum hks).1], h2⟩
+
+/-! ### the float hypotheses discharged in the exact double model -/
+
+/-- `tomore_rows` with the hypothesis on the cut positions only for the `(len(partition), k)` pairs that occur -/
+theorem tomore_rows_on {α : Type} (posOf : Nat → Nat → Option (List Nat)) :
+    ∀ (parts : List (List α)) (ks : List Nat) (out : List (List α)),
+      (∀ p ∈ parts, ∀ k ∈ ks, ∀ pos, posOf p.length k = some pos →
+        pos.length = k + 1 ∧ pos.head? = some 0 ∧ pos.getLast? = some p.length ∧ pos.Pairwise (· ≤ ·)) →
+      toMoreWith posOf parts ks = some out → out.length = ks.sum ∧ out.flatten = parts.flatten
+  | [], [], out, _, h => by simp [toMoreWith] at h; subst h; simp
+  | [], _ :: _, _, _, h => by simp [toMoreWith] at h
+  | _ :: _, [], _, _, h => by simp [toMoreWith] at h
+  | p :: ps, k :: ks, out, hpos, h => by
+    simp only [toMoreWith, Option.bind_eq_bind, Option.bind_eq_some_iff, Option.pure_def,
+      Option.some.injEq] at h
+    obtain ⟨here, hhere, rest, hrest, rfl⟩ := h
+    obtain ⟨ih1, ih2⟩ := tomore_rows_on posOf ps ks rest
+      (fun p' hp' k' hk' => hpos p' (List.mem_cons_of_mem _ hp') k' (List.mem_cons_of_mem _ hk')) hrest
+    have key : here.length = k ∧ here.flatten = p := by
+      unfold splitOne at hhere
+      split at hhere
+      · rename_i hk
+        cases hhere
+        subst hk
+        simp
+      · simp only [Option.map_eq_some_iff] at hhere
+        obtain ⟨pos, hp, rfl⟩ := hhere
+        obtain ⟨hl, h0, hlast, hm⟩ := hpos p List.mem_cons_self k List.mem_cons_self pos hp
+        rw [cut_eq_chunks]
+        refine ⟨by rw [chunks_length, hl]; omega, ?_⟩
+        rw [chunks_flatten p pos 0 p.length h0 hlast hm, pySlice_full]
+    simp only [List.length_append, List.flatten_append, List.sum_cons, List.flatten_cons, key.1, key.2, ih1, ih2]
+    exact ⟨trivial, trivial⟩
+
+/-- **RepartitionToFewer without float hypotheses**: in exact IEEE double arithmetic the boundaries
+    `int(i * (old / new))` satisfy `BoundsOK` (`Lemmas/RepartFloat.lean`: rounding is monotone; the last boundary is at
+    most `old` after two roundings), so `repartition(npartitions = new)` to fewer partitions keeps rows and order and
+    yields exactly `new` partitions — for fewer than `2^50` input partitions. -/
+theorem tofewer_rows_ieee {α : Type} (parts : List (List α)) (new : Nat) (hn : 0 < new) (hle : new ≤ parts.length)
+    (hsmall : 3 * parts.length < 2 ^ 52) :
+    ∃ raw out, toFewerRaw new parts.length = some raw ∧ toFewer parts raw = some out ∧
+      out.length = new ∧ out.flatten = parts.flatten := by
+  obtain ⟨raw, hraw, hb⟩ := toFewerRaw_boundsOK new parts.length hn hle (by rw [Dask.TextBlocks.S_eq]; exact hsmall)
+  obtain ⟨out, h1, h2, h3⟩ := tofewer_rows parts raw hb
+  refine ⟨raw, out, hraw, h1, ?_, h3⟩
+  have : raw.length = new + 1 := by
+    unfold toFewerRaw at hraw
+    have hn0 : new ≠ 0 := by omega
+    simp only [hn0, if_false, Option.some.injEq] at hraw
+    subst hraw; simp
+  omega
+
+/-- **RepartitionToMore without float hypotheses**: `split_evenly`'s positions are non-decreasing in exact IEEE double
+    arithmetic (`splitPositions_mono`), so `repartition(npartitions = new ≥ old)` through ToMore yields exactly `new`
+    partitions with rows and order kept — for `new ≤ 2^52` and partitions of at most `2^53` rows. -/
+theorem tomore_rows_ieee {α : Type} (parts : List (List α)) (new : Nat) (out : List (List α))
+    (hrows : ∀ p ∈ parts, p.length ≤ 2 ^ 53) (hnew : new ≤ 2 ^ 52) (h : toMore parts new = some out) :
+    out.length = new ∧ out.flatten = parts.flatten := by
+  unfold toMore at h
+  simp only [Option.bind_eq_some_iff] at h
+  obtain ⟨ks, hks, hout⟩ := h
+  have hkle : ∀ k ∈ ks, k ≤ new := by
+    intro k hk
+    unfold nsplits at hks
+    split at hks
+    · cases hks
+    · rename_i ho
+      cases hks
+      have hdm := Nat.div_add_mod new parts.length
+      have hpos : 0 < parts.length := Nat.pos_of_ne_zero ho
+      have h1 : new / parts.length ≤ parts.length * (new / parts.length) := Nat.le_mul_of_pos_left _ hpos
+      simp only [List.mem_append, List.mem_replicate, List.mem_singleton] at hk
+      rcases hk with ⟨_, rfl⟩ | rfl <;> omega
+  obtain ⟨h1, h2⟩ := tomore_rows_on splitPositions parts ks out
+    (by
+      intro p hp k hk pos hpos
+      obtain ⟨e1, e2, e3⟩ := splitPositions_shape hpos
+      refine ⟨e1, e2, e3, ?_⟩
+      have hk0 : 0 < k := by
+        apply Nat.pos_of_ne_zero
+        intro h0; subst h0
+        simp [splitPositions] at hpos
+      exact splitPositions_mono p.length k hk0
+        (by rw [Dask.TextBlocks.S_eq]; exact Nat.le_trans (hkle k hk) hnew) (hrows p hp) pos hpos)
+    hout
   exact ⟨by rw [h1, (nsplits_sum hks).1], h2⟩
 
 /-- number of partitions of the expression `Repartition._lower` picks -/
@@ -327,7 +414,13 @@ theorem from_pandas_rows {α : Type} (rows : List α) (key : α → Nat) (m : Mo
 
 example : BoundsOK [0, 1, 2, 4, 5, 6, 8, 9, 10, 12, 13, 15] 15 :=
   ⟨rfl, by decide, by intro l h; cases h; decide, by decide⟩
-example : toFewerBoundaries 11 15 = some [0, 1, 2, 4, 5, 6, 8, 9, 10, 12, 13, 15] := by decide
+example : toFewerBoundaries 11 15 = some [0, 1, 2, 4, 5, 6, 8, 9, 10, 12, 13, 15] := by decide +kernel
+-- `len = 26, k = 46`: `step = 26/46 < 1` (a double below 1: finer than 2^-52), positions differ from `i*26//46` (12, 12 | 23)
+example : splitPositions 26 46 = some [0, 0, 1, 1, 2, 2, 3, 3, 4, 5, 5, 6, 6, 7, 7, 8, 9, 9, 10, 10, 11, 11, 12, 12, 13, 14, 14,
+    15, 15, 16, 16, 17, 18, 18, 19, 19, 20, 20, 21, 22, 22, 23, 23, 24, 24, 25, 26] := by decide +kernel
+example : splitPositions 3 7 = some [0, 0, 0, 1, 1, 2, 2, 3] := by decide +kernel
+-- the raw boundaries before `_clean_new_division_boundaries` repairs the last one: `int(11 * (15 / 11)) = 14`
+example : toFewerRaw 11 15 = some [0, 1, 2, 4, 5, 6, 8, 9, 10, 12, 13, 14] := by decide +kernel
 example : toFewer [[1], [2, 3], [], [4]] [0, 1, 3] = some [[1], [2, 3, 4]] := by decide
 example : nsplits 8 3 = some [2, 2, 4] := by decide
 example : toMoreWith (fun len k => some ((List.range k).map (fun i => i * len / k) ++ [len]))
